@@ -17,7 +17,8 @@ func init() {
 		Level: "exploration",
 		Rule: "all 22 instantiations of SignedAsFloat / UnsignedAsFloat and their compositions with the matching FloatAsSigned / FloatAsUnsigned; source codes in ascending amplitude: every value of 8- and 16-bit types in every tier, every value of 32-bit types in the thorough tier (boundary-dense + seeded random in the quick tier), boundary-dense + seeded random for 64-bit types; " +
 			"oracle: result in [-1,1]; lowest/zero/highest code -> -1/0/1; results non-decreasing (strictly increasing for depth<=32 into float64); |r*FS - a| <= FS*(2^-(depth-1) + 2*unit roundoff of the destination) decided in float64 with a guard band and in exact rationals (big.Rat) inside the band and for 64-bit sources; round trip through the real inverse conversion exact for depth<=32 via float64 and within one step for depth<=16 via float32; " +
-			"distinct = (instantiation, source code) pairs enumerated once; every pair is non-trivial",
+			"distinct = (instantiation, source code) pairs enumerated once; every pair is non-trivial; " +
+			"also: one float buffer reused as destination by all source types in turn and handed on as the same object to the inverse conversion (chain)",
 		Assume:    []string{"amplitude of an unsigned code is code - 2^(depth-1); full scale is 2^(depth-1)-1 for positive and 2^(depth-1) for negative amplitudes", "known finding: UnsignedAsFloat divides negative amplitudes by 2^(depth-1)-1 (see known_findings.txt)"},
 		Exhaustiv: "8- and 16-bit sources always, 32-bit sources in the thorough tier; 64-bit sources are sampled",
 		Plan:      fixedPlan,
